@@ -83,6 +83,7 @@ type ltEval interface {
 
 type adapter[T any] struct {
 	scheme            string
+	world             string // parameter set name (part of every seed)
 	params            rlwe.Parameters
 	rows, n, logN     int // packed rows, matrix dimension (columns), log2(n)
 	maxLevel, maxLvlP int
@@ -99,6 +100,10 @@ type adapter[T any] struct {
 	// advertised Galois elements (all advertised variants must agree; disagreement is reported by newLT).
 	newLT   func(c *engine.Chooser, p lintrans.Parameters, diags map[int][]T) (lt lintrans.LinearTransformation, galEls []uint64, err error)
 	sk      *rlwe.SecretKey
+	// caches (per world): Galois keys and input ciphertexts are deterministic functions of
+	// (VERIF_SEED, world, what they are), whatever ran before: each is generated right after its own uni.Seed.
+	keyCache map[string]*rlwe.GaloisKey
+	ctCache  map[string]*rlwe.Ciphertext
 	// newEval builds a scheme evaluator with the given keys; rekey returns an evaluator sharing the
 	// first one's buffers (Evaluator.WithKey) with another key set.
 	newEval func(evk rlwe.EvaluationKeySet) (ev ltEval, rekey func(evk rlwe.EvaluationKeySet) ltEval)
@@ -115,6 +120,48 @@ type adapter[T any] struct {
 	rescaleErr func(scaleAfter xscale) float64
 	equal      func(got, want T, eps float64) bool
 	show       func(v []T) string
+}
+
+// galoisKey returns the Galois key for galEl at (levelQ, levelP); levelQ < 0 = default (maximum).
+func (a *adapter[T]) galoisKey(c *engine.Chooser, galEl uint64, levelQ, levelP int) *rlwe.GaloisKey {
+	id := fmt.Sprintf("%d/%d/%d", galEl, levelQ, levelP)
+	if k, ok := a.keyCache[id]; ok {
+		return k
+	}
+	uni.Seed(c, "galois-key", a.world, a.n, id)
+	evkp := rlwe.EvaluationKeyParameters{LevelP: &levelP}
+	if levelQ >= 0 {
+		evkp.LevelQ = &levelQ
+	}
+	k := rlwe.NewKeyGenerator(a.params).GenGaloisKeyNew(galEl, a.sk, evkp)
+	if a.keyCache == nil {
+		a.keyCache = map[string]*rlwe.GaloisKey{}
+	}
+	a.keyCache[id] = k
+	return k
+}
+
+func (a *adapter[T]) galoisKeys(c *engine.Chooser, galEls []uint64, levelQ, levelP int) *rlwe.MemEvaluationKeySet {
+	gks := make([]*rlwe.GaloisKey, len(galEls))
+	for i, g := range galEls {
+		gks[i] = a.galoisKey(c, g, levelQ, levelP)
+	}
+	return rlwe.NewMemEvaluationKeySet(nil, gks...)
+}
+
+// ciphertext returns a private copy of the (cached) encryption of v at (level, scale).
+func (a *adapter[T]) ciphertext(c *engine.Chooser, what string, v []T, level int, alt bool) *rlwe.Ciphertext {
+	id := fmt.Sprintf("%s/%d/%v", what, level, alt)
+	if ct, ok := a.ctCache[id]; ok {
+		return ct.CopyNew()
+	}
+	uni.Seed(c, "ciphertext", a.world, a.n, id)
+	ct := a.encrypt(v, level, a.ctScale(alt))
+	if a.ctCache == nil {
+		a.ctCache = map[string]*rlwe.Ciphertext{}
+	}
+	a.ctCache[id] = ct
+	return ct.CopyNew()
 }
 
 // ---------------------------------------------------------------------------------------------
@@ -190,6 +237,7 @@ type scenarioCfg struct {
 	sets    []diagSet
 	ratio   int
 	entries []int
+	dedicated bool // small scenario that reports value failures of the known-defect input classes
 	tag     string // non-empty: special input class, becomes part of every signature of the scenario
 }
 
@@ -261,11 +309,11 @@ func giantSteps(idx []int) int { return len(idx) + 1 }
 
 func runLeaf[T any](c *engine.Chooser, a *adapter[T], scName string, cfg *scenarioCfg) {
 	p := choosePlan(c, a, cfg)
-	uni.Seed(c, scName, p.describe)
 	c.Note("%s", p.describe)
 	sigBase := "C12/" + a.scheme + "/" + entryName[p.entry]
 	if cfg.tag != "" {
-		sigBase = "C12/" + a.scheme + "/" + cfg.tag + "/" + entryName[p.entry]
+		// one signature per special input class (the code path is shared by both schemes and all entry points)
+		sigBase = "C12/lintrans/" + cfg.tag
 		c.Cover("special", cfg.tag)
 	}
 	c.Cover("entry", a.scheme+"/"+entryName[p.entry])
@@ -289,13 +337,11 @@ func runLeaf[T any](c *engine.Chooser, a *adapter[T], scName string, cfg *scenar
 	// model input, ciphertext
 	v := a.input()
 	ctScale := a.ctScale(p.ctAlt)
-	ct := a.encrypt(v, p.ctLevel, ctScale)
+	ct := a.ciphertext(c, "input", v, p.ctLevel, p.ctAlt)
 	ctBackup := ct.CopyNew()
 	ltScale := a.ltScale(p.ltAlt)
 
 	// transformations
-	kgen := rlwe.NewKeyGenerator(a.params)
-	sk := a.sk
 	var lts []lintrans.LinearTransformation
 	var models []map[int][]T
 	galSet := map[uint64]bool{}
@@ -348,18 +394,16 @@ func runLeaf[T any](c *engine.Chooser, a *adapter[T], scName string, cfg *scenar
 		gals = append(gals, g)
 	}
 	sort.Slice(gals, func(i, j int) bool { return gals[i] < gals[j] })
-	evkp := rlwe.EvaluationKeyParameters{LevelP: &p.levelP}
+	keyLevelQ := -1
 	if p.keyLvlQ {
-		need := 0
 		for _, mp := range p.mats {
-			if mp.levelQ > need {
-				need = mp.levelQ
+			if mp.levelQ > keyLevelQ {
+				keyLevelQ = mp.levelQ
 			}
 		}
-		need = min2(need, p.ctLevel)
-		evkp.LevelQ = &need
+		keyLevelQ = min2(keyLevelQ, p.ctLevel)
 	}
-	gks := kgen.GenGaloisKeysNew(gals, sk, evkp)
+	evk := a.galoisKeys(c, gals, keyLevelQ, p.levelP)
 	var ev ltEval
 	if p.warm {
 		// The evaluator's scratch buffers are not fresh: an evaluator first computes another product
@@ -379,29 +423,28 @@ func runLeaf[T any](c *engine.Chooser, a *adapter[T], scName string, cfg *scenar
 			c.Fail("C12/"+a.scheme+"/Encode/error", "%s: warm-up matrix: %v", p.describe, werr)
 			return
 		}
-		wkeys := kgen.GenGaloisKeysNew(wgals, sk, rlwe.EvaluationKeyParameters{LevelP: &p.levelP})
-		ev0, rekey := a.newEval(rlwe.NewMemEvaluationKeySet(nil, wkeys...))
-		wct := a.encrypt(a.diag(1, 2), a.maxLevel, a.ctScale(false))
+		ev0, rekey := a.newEval(a.galoisKeys(c, wgals, -1, p.levelP))
+		wct := a.ciphertext(c, "warm-up", a.diag(1, 2), a.maxLevel, false)
 		if _, werr = ev0.EvaluateNew(wct, wlt); werr != nil {
 			c.Fail("C12/"+a.scheme+"/EvaluateNew/error", "%s: warm-up evaluation: %v", p.describe, werr)
 			return
 		}
-		ev = rekey(rlwe.NewMemEvaluationKeySet(nil, gks...))
+		ev = rekey(evk)
 		c.Cover("evaluator", "reused")
 	} else {
-		ev, _ = a.newEval(rlwe.NewMemEvaluationKeySet(nil, gks...))
+		ev, _ = a.newEval(evk)
 		c.Cover("evaluator", "fresh")
 	}
 
-	// run the entry point
+	// run the entry point (all randomness so far came from the per-object seeds of the caches)
+	uni.Seed(c, scName, p.describe)
 	var outs []*rlwe.Ciphertext
 	var err error
 	fresh := func(i int) *rlwe.Ciphertext {
 		lvl := min2(p.ctLevel, p.mats[i].levelQ)
 		if p.outMode == 1 {
 			// a receiver at the maximum level that already holds data (another encryption)
-			o := a.encrypt(a.diag(2, 1), a.maxLevel, a.ctScale(!p.ctAlt))
-			return o
+			return a.ciphertext(c, "receiver", a.diag(2, 1), a.maxLevel, !p.ctAlt)
 		}
 		return a.newCt(lvl)
 	}
@@ -491,7 +534,11 @@ func runLeaf[T any](c *engine.Chooser, a *adapter[T], scName string, cfg *scenar
 			e1 := a.ltErr(e0, maxAbs(a.f, w0), dmaxOf(a, models[1]), s0r, ltScale, l1, p.levelP, giantSteps(p.mats[1].idx))
 			eps = e1 + a.rescaleErr(s1r)
 		}
-		judge(c, a, sigBase, p, 0, outs[0], l1-1, s1r, want, eps)
+		class := ""
+		if naiveOnlyZero(lts[0]) || naiveOnlyZero(lts[1]) {
+			class = classNaiveOnlyZero
+		}
+		judge(c, a, sigBase, class, cfg.dedicated, p, 0, outs[0], l1-1, s1r, want, eps)
 		c.Cover("checked", "sequential")
 	} else {
 		if err != nil {
@@ -519,7 +566,15 @@ func runLeaf[T any](c *engine.Chooser, a *adapter[T], scName string, cfg *scenar
 				dl = min2(dl, p.ctLevel)
 				eps = a.ltErr(a.freshErr(ctScale), maxAbs(a.f, v), dmaxOf(a, models[i]), a.fromScale(ctScale), ltScale, dl, p.levelP, giantSteps(p.mats[i].idx))
 			}
-			judge(c, a, sigBase, p, i, outs[i], lvl, s, want, eps)
+			class := ""
+			if naiveOnlyZero(lts[i]) {
+				class = classNaiveOnlyZero
+			} else if i >= 1 && earlierGiantStep(lts[:i]) {
+				class = classManyAfterGiant
+			} else if i >= 1 {
+				c.Cover("many", "no-earlier-giant-step")
+			}
+			judge(c, a, sigBase, class, cfg.dedicated, p, i, outs[i], lvl, s, want, eps)
 		}
 		c.Cover("checked", fmt.Sprintf("many%d", len(lts)))
 	}
@@ -527,6 +582,43 @@ func runLeaf[T any](c *engine.Chooser, a *adapter[T], scName string, cfg *scenar
 	if !inPlace && !ct.Equal(ctBackup) {
 		c.Fail(sigBase+"/input-modified", "%s: ctIn differs after the call", p.describe)
 	}
+}
+
+// Input classes with a known defect (checks/c12/FINDINGS.md). A wrong VALUE in such a class is reported
+// under the class signature by the small dedicated scenarios ("known-class/...") only; the broad scenarios
+// count it under coverage bucket "demoted=<class>" instead. Reason: the engine keeps at most 200 violations
+// per worker, and thousands of leaves fall in these classes; reporting each would crowd out any OTHER
+// violation. Level and scale of such outputs, and all other outputs of the same leaf, are judged as usual.
+// Once the defect is fixed the outputs compare equal and nothing is demoted.
+const (
+	classNaiveOnlyZero  = "naive-only-diagonal-0"       // FINDINGS #2
+	classManyAfterGiant = "EvaluateMany-after-giant-step" // FINDINGS #1
+)
+
+// earlierGiantStep reports whether one of the transformations uses the baby-step giant-step algorithm
+// with a non-zero giant step (public API only: N1 and BSGSIndex).
+func earlierGiantStep(lts []lintrans.LinearTransformation) bool {
+	for _, lt := range lts {
+		if lt.N1 == 0 {
+			continue
+		}
+		index, _, _ := lt.BSGSIndex()
+		for j := range index {
+			if j != 0 {
+				return true
+			}
+		}
+	}
+	return false
+}
+
+// naiveOnlyZero: evaluated without BSGS and the only non-zero diagonal is diagonal 0.
+func naiveOnlyZero(lt lintrans.LinearTransformation) bool {
+	if lt.N1 != 0 || len(lt.Vec) != 1 {
+		return false
+	}
+	_, ok := lt.Vec[0]
+	return ok
 }
 
 func dmaxOf[T any](a *adapter[T], diags map[int][]T) []float64 {
@@ -543,7 +635,7 @@ func dmaxOf[T any](a *adapter[T], diags map[int][]T) []float64 {
 }
 
 // judge compares one output ciphertext with the model: level, scale, values.
-func judge[T any](c *engine.Chooser, a *adapter[T], sigBase string, p plan, i int, out *rlwe.Ciphertext, wantLevel int, wantScale xscale, want []T, eps float64) {
+func judge[T any](c *engine.Chooser, a *adapter[T], sigBase, class string, dedicated bool, p plan, i int, out *rlwe.Ciphertext, wantLevel int, wantScale xscale, want []T, eps float64) {
 	kind := "naive"
 	if p.mats[i].ratio >= 0 {
 		kind = "bsgs"
@@ -567,10 +659,27 @@ func judge[T any](c *engine.Chooser, a *adapter[T], sigBase string, p plan, i in
 		}
 	}
 	if bad >= 0 {
-		c.Fail(sigBase+"/value/"+kind, "%s: output %d slot %d (eps=%.3g)\n got  %s\n want %s", p.describe, i, bad, eps, a.show(got), a.show(want))
+		switch {
+		case class == "":
+			c.Fail(valueSig(sigBase, kind), "%s: output %d slot %d (eps=%.3g)\n got  %s\n want %s", p.describe, i, bad, eps, a.show(got), a.show(want))
+		case dedicated:
+			c.Fail("C12/lintrans/"+class+"/value", "%s: output %d slot %d (eps=%.3g)\n got  %s\n want %s", p.describe, i, bad, eps, a.show(got), a.show(want))
+		default:
+			c.Cover("demoted", class)
+		}
+	}
+	if class != "" {
+		c.Cover("class", class)
 	}
 	c.Outcome(a.scheme, a.show(want))
 	c.Count(1)
+}
+
+func valueSig(sigBase, kind string) string {
+	if len(sigBase) > 13 && sigBase[:13] == "C12/lintrans/" {
+		return sigBase + "/value"
+	}
+	return sigBase + "/value/" + kind
 }
 
 func showScale(s xscale) string {
